@@ -16,7 +16,7 @@ RULE = ("unit line: full product L x all 2^L patterns x order x periodic x restr
         "unit embed: full product ndim x axis x L x all 2^L base patterns x order x periodic. "
         "An execution is non-trivial when at least one oracle comparison ran.")
 ASSUMPTIONS = [
-    "scope: line length <= 8 (quick) / 12 (thorough); n-D embedding L <= 4 / 6 with 2 cells on the other axes",
+    "scope: line length <= 8 (quick) / 13 (thorough); n-D embedding L <= 4 / 6 with 2 cells on the other axes",
     "all real field values are covered by linearity: the operator has no value-dependent branch, it is evaluated on the "
     "complete impulse basis and additivity is re-checked on monomials and a tracer combination",
     "polynomial exactness is compared with relative tolerance 1e-9 (scaled by max|f|/cell^order)",
@@ -52,16 +52,16 @@ def _runs(valid, periodic):
     return runs
 
 
-def _build(L, valid, cellsize, periodic, probes, dims=("x",)):
+def _build(L, valid, cellsize, periodic, probes, dims=("x",), bc=None):
     mesh = df.Mesh(region=df.Region(p1=(0.5 * cellsize,), p2=((0.5 + L) * cellsize,), dims=dims), n=(L,),
-                   bc=dims[0] if periodic else "")
+                   bc=bc if bc is not None else (dims[0] if periodic else ""))
     nv = probes.shape[1]
     return df.Field(mesh, nvdim=nv, value=probes, valid=np.array(valid, dtype=bool),
                     vdims=[f"c{i}" for i in range(nv)], unit="A/m")
 
 
 def unit_line(ctx):
-    Lmax = 8 if ctx.tier == "quick" else 12
+    Lmax = 8 if ctx.tier == "quick" else 13
     L = ctx.choose("L", list(range(1, Lmax + 1)))
     pat = ctx.choose("pattern", list(range(2 ** L - 1, -1, -1)))  # all-valid first
     order = ctx.choose("order", [1, 2])
@@ -221,6 +221,31 @@ def unit_line(ctx):
                      f"shift(D f)={exp[tuple(w)]}", instance=inst)
 
 
+def unit_keyword_bc(ctx):
+    """bc = 'neumann' / 'dirichlet' are keywords, not lists of periodic axes: a dimension whose name is a letter of the
+    keyword ('e' occurs in both) is still an OPEN direction.  Differential oracle: same result as bc=''."""
+    Lmax = 6 if ctx.tier == "quick" else 9
+    L = ctx.choose("L", list(range(1, Lmax + 1)))
+    pat = ctx.choose("pattern", list(range(2 ** L - 1, -1, -1)))
+    order = ctx.choose("order", [1, 2])
+    bc = ctx.choose("bc", ["neumann", "dirichlet"])
+    dim = ctx.choose("dim", ["e", "x"])
+    valid = [bool((pat >> i) & 1) for i in range(L)]
+    probes = C.tracer((L,), 2, ctx.seed)
+    f = _build(L, valid, 0.5, False, probes, dims=(dim,), bc=bc)
+    g = _build(L, valid, 0.5, False, probes, dims=(dim,), bc="")
+    ctx.step(2, f"diff on bc={bc} dims=({dim},)")
+    a = f.diff(dim, order=order)
+    b = g.diff(dim, order=order)
+    ctx.observe(a.array)
+    ctx.check()
+    if not C.same_bytes(a.array, b.array):
+        ctx.fail("diff/keyword-bc-treated-as-periodic-axis", f"bc={bc!r}, dimension {dim!r}: {a.array[:, 0].tolist()} but open "
+                 f"direction gives {b.array[:, 0].tolist()}", instance=ctx.key())
+    if a.mesh.bc != bc:
+        ctx.fail("diff/metadata", f"bc {bc!r} became {a.mesh.bc!r}", instance=ctx.key())
+
+
 def unit_embed(ctx):
     """every axis of 2-4-D meshes; different pattern per parallel line; nvdim=2;
     compared line by line with the 1-D operator (which unit 'line' decides)."""
@@ -290,4 +315,5 @@ def units(tier):
     return [
         {"name": "line", "fn": unit_line, "bound": None},
         {"name": "embed", "fn": unit_embed, "bound": None},
+        {"name": "keyword_bc", "fn": unit_keyword_bc, "bound": None},
     ]
